@@ -312,6 +312,21 @@ theorem accepted_meaning_order_free (ord1 ord2 : Order) (h1 : ord1.Valid) (h2 : 
   · rintro ⟨it, hit, hf⟩; exact ⟨it, hp.mem_iff.1 hit, hf⟩
   · rintro ⟨it, hit, hf⟩; exact ⟨it, hp.mem_iff.2 hit, hf⟩
 
+/-- … and likewise on the struct, enum and variant level (encoding, tag, transparent, index_only, index). -/
+theorem accepted_top_meaning_order_free (ord1 ord2 : Order) (h1 : ord1.Valid) (h2 : ord2.Valid) (l : Level) (attrs1 attrs2 : List Attr)
+    (hp : (allItems attrs1).Perm (allItems attrs2)) (a1 a2 : A)
+    (ha1 : fromAttrs ord1 l attrs1 = .ok a1) (ha2 : fromAttrs ord2 l attrs2 = .ok a2) :
+    topSem a1 = topSem a2 := by
+  obtain ⟨_, f1⟩ := fromAttrs_facts ord1 h1 l attrs1 a1 ha1
+  obtain ⟨_, f2⟩ := fromAttrs_facts ord2 h2 l attrs2 a2 ha2
+  apply topSem_of_facts
+  intro f
+  rw [f1, f2]
+  simp only [factsOfItems, List.mem_flatMap]
+  constructor
+  · rintro ⟨it, hit, hf⟩; exact ⟨it, hp.mem_iff.1 hit, hf⟩
+  · rintro ⟨it, hit, hf⟩; exact ⟨it, hp.mem_iff.2 hit, hf⟩
+
 /-- non-vacuity: the two accepted spellings of `order_sensitive_accepted` state the same items and
     are instances of the theorem (and the rejected third order is outside its hypotheses). -/
 theorem accepted_meaning_order_free_example (e z d : Path) :
